@@ -16,17 +16,6 @@ theorem takeFault_eq (w : World) :
 
 theorem headD_nil {w : World} (h : w.faults = []) : w.faults.headD Fault.ok = .ok := by rw [h]; rfl
 
-/-- key object `o` exists with this creation stamp and material (both immutable). -/
-def KeyIs (w : World) (o : Nat) (c : Int) (m : Nat) : Prop :=
-  ∃ ko, w.keys[o]? = some ko ∧ ko.created = c ∧ ko.mat = m
-
-theorem KeyIs.ext {w w' : World} (h : Ext w w') {o : Nat} {c : Int} {m : Nat} (hk : KeyIs w o c m) : KeyIs w' o c m := by
-  obtain ⟨ko, h1, h2, h3⟩ := hk
-  obtain ⟨k', h1', h2', h3', _, _⟩ := h.keys o ko h1
-  exact ⟨k', h1', h2'.trans h2, h3'.trans h3⟩
-
-theorem Stable.keyIs (o : Nat) (c : Int) (m : Nat) : Stable (fun w => KeyIs w o c m) := ⟨fun _ _ he h => h.ext he⟩
-
 theorem KeyIs.getD {w : World} {o : Nat} {c : Int} {m : Nat} (hk : KeyIs w o c m) :
     (w.keys.getD o default).created = c ∧ (w.keys.getD o default).mat = m := by
   obtain ⟨ko, h1, h2, h3⟩ := hk
@@ -277,18 +266,23 @@ theorem Spec.withKey {α : Type} {a : Nat} {F : Prop} {P : World → Prop} {o : 
   rw [withKey_run]
   split
   · rename_i hcl
-    left
-    show a < sumAac _
-    have hlt : (w.keys.getD o default).sec < w.secrets.length := by
-      apply Classical.byContradiction
-      intro hge
-      have : w.secrets.getD (w.keys.getD o default).sec default = default := by
-        rw [List.getD_eq_getElem?_getD, List.getElem?_eq_none (Nat.le_of_not_lt hge)]; rfl
-      rw [this] at hcl
-      exact absurd hcl (by decide)
-    dsimp only
-    rw [sumAac_setAt _ _ hlt]
-    exact Nat.lt_succ_of_le ha
+    by_cases hF : F
+    · left
+      show a < sumAac _
+      have hlt : (w.keys.getD o default).sec < w.secrets.length := by
+        apply Classical.byContradiction
+        intro hge
+        have : w.secrets.getD (w.keys.getD o default).sec default = default := by
+          rw [List.getD_eq_getElem?_getD, List.getElem?_eq_none (Nat.le_of_not_lt hge)]; rfl
+        rw [this] at hcl
+        exact absurd hcl (by decide)
+      dsimp only
+      rw [sumAac_setAt _ _ hlt]
+      exact Nat.lt_succ_of_le (ha hF)
+    · right
+      have he := withKey_ext o f hfe w
+      rw [withKey_run, if_pos hcl] at he
+      exact ⟨hi.still he ⟨rfl, rfl, id⟩, fun h => absurd h hF, fun v hv => (by cases hv), fun h => absurd h hF⟩
   · rw [hkis.getD.2]
     exact hf.post w ha hi hnf hp
 
